@@ -375,6 +375,7 @@ class PathCtx:
             self.solver.add(h)
         self.max_decisions = max_decisions
         self.fresh = 0
+        self.guards = []           # tolerance guards met on symbolic operands (probed concretely by the runner)
         self.known_pos = set()     # names of variables asserted > 0 (feeds the sign analysis that spares solver calls)
         self.quick = 0
 
@@ -574,10 +575,10 @@ def sym_min(a, b):
 
 
 class PathResult:
-    __slots__ = ("pc", "side", "value", "exc", "decisions")
+    __slots__ = ("pc", "side", "value", "exc", "decisions", "guards")
 
-    def __init__(self, pc, side, value, exc, decisions):
-        self.pc, self.side, self.value, self.exc, self.decisions = pc, side, value, exc, decisions
+    def __init__(self, pc, side, value, exc, decisions, guards=()):
+        self.pc, self.side, self.value, self.exc, self.decisions, self.guards = pc, side, value, exc, decisions, list(guards)
 
 
 def explore(fn, hyps=(), max_paths=256):
@@ -600,7 +601,7 @@ def explore(fn, hyps=(), max_paths=256):
             exc = e
         finally:
             PathCtx.cur = None
-        out.append(PathResult(list(ctx.pc), list(ctx.side), value, exc, list(ctx.decisions)))
+        out.append(PathResult(list(ctx.pc), list(ctx.side), value, exc, list(ctx.decisions), ctx.guards))
         for k in range(len(dec), len(ctx.decisions)):
             if ctx.open_alt[k]:
                 stack.append(ctx.decisions[:k] + [not ctx.decisions[k]])
